@@ -49,11 +49,9 @@ def expect_entry(hdr, ancestor):
     return {"meta": mm + rsk.coinbase_hash(hdr["full_cb"]), "bytes": hdr["raw"], "brothers": []}
 
 
-def run_one(ch, cfg):
-    w = World(ch)
-    w.bring_up()
-    dev = w.device
-    ancestor = ch.draw(3, "cmd.ancestor") == 1
+def gen_blocks_request(ch, cfg, ancestor=None):
+    if ancestor is None:
+        ancestor = ch.draw(3, "cmd.ancestor") == 1
     nblocks = ch.pick([1, 2, 3, cfg["max_blocks"]], "nblocks")
     tiny = ch.draw(12, "tiny") == 1
     blocks = []
@@ -102,12 +100,26 @@ def run_one(ch, cfg):
     ask = [ch.draw(2, "ask") == 1 for _ in range(ch.int_between(1, 4, "ask.n"))] \
         if not ancestor else None
     exp = {"kind": "blocks", "blocks": exp_blocks, "stop_after": stop, "ask_brothers": ask}
-    dev.expect = exp
     if ancestor:
         req = {"command": "updateAncestorBlock", "blocks": blocks, "version": 5}
     else:
         req = {"command": "advanceBlockchain", "blocks": blocks, "brothers": brothers,
                "version": 5}
+    info = {"ancestor": ancestor, "nblocks": nblocks, "nfset": nfset, "nbro_total": nbro_total,
+            "ask": ask, "stopclass": stopclass, "tiny": tiny, "stop": stop,
+            "brothers": brothers, "blocks": blocks}
+    return req, exp, info
+
+
+def run_one(ch, cfg):
+    w = World(ch)
+    w.bring_up()
+    dev = w.device
+    req, exp, info = gen_blocks_request(ch, cfg)
+    ancestor, nblocks, nfset = info["ancestor"], info["nblocks"], info["nfset"]
+    nbro_total, ask, stopclass, tiny = info["nbro_total"], info["ask"], info["stopclass"], info["tiny"]
+    stop, brothers, blocks = info["stop"], info["brothers"], info["blocks"]
+    dev.expect = exp
     n_before = len(dev.apdus)
     rep, exc = w.request(req)
     viol = list(dev.violations)
